@@ -7,11 +7,11 @@ import itertools
 
 ROLES = {
     "M": ["none", "read", "assign", "aug", "walrus", "for", "def", "class", "import", "comp", "fortuple", "whilewalrus", "forwalrus"],
-    "F": ["none", "read", "assign", "aug", "walrus", "param", "for", "comp", "gassign", "gread", "gaug", "nassign", "nread", "naug", "def", "class", "import", "kwparam", "starparam", "paramassign", "paramaug", "whilewalrus", "forwalrus", "posparam"],
-    "C": ["none", "read", "assign", "aug", "for", "gassign", "nassign", "readassign", "def", "import", "walrusless", "whilewalrus", "forwalrus", "condassign", "loopassign0"],
+    "F": ["none", "read", "kwread", "assign", "aug", "walrus", "param", "for", "comp", "gassign", "gread", "gaug", "nassign", "nread", "naug", "def", "class", "import", "kwparam", "starparam", "paramassign", "paramaug", "whilewalrus", "forwalrus", "posparam"],
+    "C": ["none", "read", "kwread", "assign", "aug", "for", "gassign", "nassign", "readassign", "def", "import", "walrusless", "whilewalrus", "forwalrus", "condassign", "loopassign0"],
     "L": ["none", "read", "param", "walrus", "default", "compwalrus", "compwalrus@while"],
-    "G": ["none", "read", "target", "walrus", "readiter", "readcond", "walrus@while", "walrus@for", "walrus@if", "read@while"],
-    "E": ["none", "read", "target", "readiter", "walrus@while"],
+    "G": ["none", "read", "target", "walrus", "readiter", "readcond", "walrus@while", "walrus@for", "walrus@if", "read@while", "startarget", "tupletarget"],
+    "E": ["none", "read", "target", "readiter", "walrus@while", "startarget"],
 }
 STMT_KINDS = ("M", "F", "C")
 
@@ -47,10 +47,10 @@ def trees(nscopes, maxdepth=4):
 
 CHAIN_ROLES = {
     "M": ["none", "assign"],
-    "F": ["none", "read", "assign", "param", "posparam", "gassign", "gread", "nassign", "nread", "naug"],
-    "C": ["none", "read", "assign", "gassign", "readassign", "condassign"],
+    "F": ["none", "read", "kwread", "assign", "param", "posparam", "gassign", "gread", "nassign", "nread", "naug"],
+    "C": ["none", "read", "kwread", "assign", "gassign", "readassign", "condassign"],
     "L": ["read", "walrus", "compwalrus"],
-    "G": ["read", "target", "walrus@while"],
+    "G": ["read", "target", "walrus@while", "startarget"],
     "E": ["read"],
 }
 
@@ -166,6 +166,8 @@ def gen(t, path, ind, out):
         emit("    pass")
     elif role == "walrusless":
         emit("x = y = %s" % V)
+    if role == "kwread":  # the name is read as the value of a keyword argument and of a ** mapping
+        emit('log(%s+":kw", show(v=x), show(**{"v": x}))' % V)
     if role != "none":
         emit('log(%s+":pre", show(x))' % V)
     for i, c in enumerate(ch):
@@ -244,6 +246,10 @@ def expr(t, path):
     o, c = ("[", "]") if kind == "G" else ("list(", ")")
     if role == "target":
         return '%s%s for x in [%s+"t"]%s' % (o, body, V, c)
+    if role == "startarget":  # the tracked name is the starred element of the comprehension target
+        return '%s[show(x)%s] for q_, *x in [(0, %s+"t")]%s' % (o, (", " + inner) if inner else "", V, c)
+    if role == "tupletarget":  # ... an element of a nested tuple target
+        return '%s[show(x)%s] for q_, (x, z_) in [(0, (%s+"t", 1))]%s' % (o, (", " + inner) if inner else "", V, c)
     if role == "readiter":
         return "%s%s for q in [show(x)]%s" % (o, body, c)
     if role == "readcond":
